@@ -10,7 +10,7 @@ CFG = {
              "quoting, white space, comments outside the root, character references, element order, key order, integer/real spelling, "
              "DOCTYPE on plists, default layer anywhere in layercontents.plist) plus at most one rare spelling per case, loaded by "
              "Font::load (3 in 8: Font::load_requested_data with none().default_layer(true) / all().default_layer(true) / filter_layers(name of the default layer), compared with what was requested of the description, default layer under the name the writer gave it) and dumped through public getters: values must equal the description, default layer first, the others in "
-             "file order, the six transformation coefficients with the specification's affine meaning. plus a load-edit-save stream (500 quick / 8 000 thorough): the description rendered by norad or by the independent writer (glif files named by the UFO convention, capitals included), LOADED, edited through the API (insert / rename / remove glyphs, new / rename / remove layers) with names chosen to clash with existing file names modulo case and modulo the replacement of illegal characters (upper-case, non-ASCII), saved and read by the independent reader against the dump of the in-memory font: every glyph found under its contents.plist entry with its own data, no two names share a file, layer directories pairwise different ignoring case. plus layer-order cases in both streams: 1, 2, 3, 6, 21, 22, 23, 33, 34, 35, 41, 65 layers (glyph-less except the default) with the default layer first / second / in the middle / last of layercontents.plist (quick: two positions each), written by the independent writer or by norad and re-ordered by hand; the order norad reports and writes back must be: default first, the others in file order; and 21 / 64 glyphs in one layer. 750 + 750 cases quick, "
+             "file order, the six transformation coefficients with the specification's affine meaning. plus a load-edit-save stream (500 quick / 8 000 thorough): the description rendered by norad or by the independent writer (glif files named by the UFO convention, capitals included), LOADED, edited through the API (insert / rename / remove glyphs, new / rename / remove layers) with names chosen to clash with existing file names modulo case and modulo the replacement of illegal characters (upper-case, non-ASCII), saved and read by the independent reader against the dump of the in-memory font: every glyph found under its contents.plist entry with its own data, no two names share a file, layer directories pairwise different ignoring case. plus layer-order cases in both streams: 1, 2, 3, 6, 21, 22, 23, 33, 34, 35, 41, 65 layers (glyph-less except the default) with the default layer first / second / in the middle / last of layercontents.plist (quick: two positions each), written by the independent writer or by norad and re-ordered by hand; the order norad reports and writes back must be: default first, the others in file order; and 21 / 64 glyphs in one layer. plus closed contours started ANYWHERE (every rotation of: one qcurve with 0..6 off-curves, line + 0..6 off-curves + qcurve, off-curve-only contours, cubic contours with 0/1/2 off-curves so that the seam splits the run in every way), one glyph per rotation; the contour-shape distribution (ct-* tags: open, lines, all-offcurve, cubic-seam0..2, quad no-wrap / on-curve-last / starts-on-curve / seam-split / wrap-run3+) is counted into input_distribution. 750 + 750 cases quick, "
              "12 000 + 12 000 thorough. non-trivial = the description holds at least one glyph; distinct by input tokens"),
     "exhaustive": {"quick": False, "thorough": False},
     "exhaustive_note": "the vocabulary theorems are exhaustive over the regenerated tables (every FontInfo field, every attribute literal, every file-name static); the behavioural part is sampled",
